@@ -21,6 +21,9 @@ Proof. vm_compute. reflexivity. Qed.
 Lemma run_succ n s t r : run G_xml G_xml_R n s = Ok (t, r) -> S (NT n) s t r.
 Proof. intros H. apply (denote_succ G_xml G_xml_nosep _ (NT n) eq_refl s t r H). Qed.
 
+Lemma den_S f e s t r : denote G_xml f e s = Ok (t, r) -> nosep e = true -> S e s t r.
+Proof. intros H He. apply (denote_succ G_xml G_xml_nosep f e He s t r H). Qed.
+
 Ltac inv H := inversion H; subst; clear H.
 
 (** one inversion step on a hypothesis about a composite expression *)
@@ -58,25 +61,28 @@ Proof.
     rewrite forallb_forall in *; intros x Hx; apply name_start_is_name; apply H; exact Hx end.
 Qed.
 
-Lemma inv_ncname s t r : S (NT nt_ncname) s t r -> exists n : str, t = TStr n /\ ncname_ok n /\ s = n ++ r.
+Lemma inv_ncname s t r : S (NT nt_ncname) s t r ->
+  exists n : str, t = TStr n /\ ncname_ok n /\ s = n ++ r /\ stops (eval (is_name_char_except [58])) r.
 Proof.
   intros H. inv_nt H body_ncname. invs.
   match goal with H : ?c ++ ?r = _ ++ _ ++ ?r |- _ => rewrite app_assoc in H; apply app_inv_tail in H; subst c end.
-  eexists. split; [reflexivity|]. split; [|reflexivity].
+  eexists. split; [reflexivity|]. split; [|split; [reflexivity|assumption]].
   match goal with H : ?a <> [] |- ncname_ok (?a ++ ?b) => destruct a as [|c a']; [contradiction|] end.
   cbn [app ncname_ok]. match goal with H : forallb _ (c :: a') = true |- _ => cbn [forallb] in H; apply andb_prop in H; destruct H as [Hc Ha] end.
   split; [exact Hc|]. rewrite forallb_app. apply andb_true_intro. split; [|assumption].
   rewrite forallb_forall in *. intros x Hx. apply name_start_except_colon. apply Ha. exact Hx.
 Qed.
 
-Lemma inv_qname s t r : S (NT nt_qname) s t r -> exists q, t = tree_qname q /\ qname_ok q.
+Lemma inv_qname s t r : S (NT nt_qname) s t r ->
+  exists q, t = tree_qname q /\ qname_ok q /\ s = d_qname q ++ r /\ stops (eval (is_name_char_except [58])) r.
 Proof.
   intros H. inv_nt H body_qname. inv_alt; invs.
   - match goal with H : succ _ (NT nt_prefixed_name) _ _ _ |- _ => inv_nt H body_prefixed_name end. invs.
-    repeat match goal with H : succ _ (NT nt_ncname) _ _ _ |- _ => apply inv_ncname in H; destruct H as [? [-> [? ?]]] end.
-    eexists (Prefixed _ _). split; [reflexivity|]. split; assumption.
-  - match goal with H : succ _ (NT nt_ncname) _ _ _ |- _ => apply inv_ncname in H; destruct H as [? [-> [? ?]]] end.
-    eexists (Unprefixed _). split; [reflexivity|assumption].
+    repeat match goal with H : succ _ (NT nt_ncname) _ _ _ |- _ => apply inv_ncname in H; destruct H as [? [-> [? [? ?]]]] end.
+    subst. eexists (Prefixed _ _). split; [reflexivity|]. split; [split; assumption|].
+    split; [cbn [d_qname]; rewrite <- app_assoc; reflexivity|assumption].
+  - match goal with H : succ _ (NT nt_ncname) _ _ _ |- _ => apply inv_ncname in H; destruct H as [? [-> [? [? ?]]]] end.
+    subst. eexists (Unprefixed _). split; [reflexivity|]. split; [assumption|]. split; [reflexivity|assumption].
 Qed.
 
 (** ** references *)
@@ -183,7 +189,7 @@ Qed.
 Lemma inv_char_data s t r : S (NT nt_char_data) s t r -> exists x : str, t = TStr x /\ text_ok x.
 Proof.
   intros H. inv_nt H body_char_data. unfold xc_char_except0 in *.
-  match goal with H : succ _ (TakeUntil _ _) _ _ _ |- _ => apply inv_take_until in H; [|discriminate]; destruct H as [x [-> [H1 [H2 _]]]] end.
+  match goal with H : succ _ (TakeUntil _ _) _ _ _ |- _ => apply inv_take_until in H; [|discriminate]; destruct H as [x [-> [Hx1 [Hx2 _]]]] end.
   exists x. split; [reflexivity|split; assumption].
 Qed.
 
